@@ -163,13 +163,26 @@ def run_histories(ns, seeds, n_edits, kinds=None, max_per_class=3, on_event=None
     for tid, seed in enumerate(seeds, start=1):
         rng = random.Random(seed)
         model = gen.random_model(rng, max_per_class=max_per_class)
+        if seed % 2:        # defaults (no initial storage need, small base consumptions) hide what is added in place
+            for sto in efx.names_of(model, "Storage"):
+                model[sto]["inp"]["base_storage_need"] = [rng.choice([1, 5]), "TB"]
         try:
             h = LiveHistory(ns, log, tid, model)
         except Exception as ex:
             yield ("build-failed", seed, model, ex)
             continue
+        last_input = None          # (object, attribute, value before the edit) of the previous input edit
         for _ in range(n_edits):
             e = gen.random_edit(rng, h.model, kinds)
+            if last_input is not None and rng.random() < 0.3:
+                # an edit is often followed by another edit of the same input: its undo, or a second new value
+                o, a, before = last_input
+                cur = h.model[o]["inp"][a]
+                e = ("input", o, a, list(before) if rng.random() < 0.5 and before != cur else [cur[0] * 3 + (2 if cur[0] == 0 else 0), cur[1]])
+            if e[0] == "input" and e[1] in h.model and e[2] in h.model[e[1]]["inp"]:
+                last_input = (e[1], e[2], list(h.model[e[1]]["inp"][e[2]]))
+            else:
+                last_input = None
             ev = h.do(e, via_update=rng.random() < 0.3)
             if on_event:
                 on_event(h, ev)
